@@ -217,8 +217,10 @@ func TestVerifC08(t *testing.T) {
 						sc = ps
 					} else {
 						if err := js.SetThreshold(thr); err != nil {
-							r.Fail("json threshold: %v", err)
-							return
+							// every threshold of the grid lies in (0,1]: a scanner that refuses one goes on
+							// scanning at the previous threshold
+							r.Violate(fmt.Sprintf("threshold-refused/json/%v", thr), fmt.Sprintf("the JSON scanner refuses the threshold %v, which lies in (0,1]: %v", thr, err), map[string]interface{}{"threshold": thr})
+							continue
 						}
 						sc = js
 					}
@@ -379,7 +381,10 @@ func TestVerifC08Pairs(t *testing.T) {
 						ps.SetThreshold(thr)
 						sc = ps
 					} else {
-						js.SetThreshold(thr)
+						if err := js.SetThreshold(thr); err != nil {
+							r.Violate(fmt.Sprintf("threshold-refused/json/%v", thr), fmt.Sprintf("the JSON scanner refuses the threshold %v, which lies in (0,1]: %v", thr, err), map[string]interface{}{"threshold": thr})
+							continue
+						}
 						sc = js
 					}
 					full, err := sc.ScanTopology(tp, "f")
